@@ -100,6 +100,9 @@ def run(F, chk):
     check_buffer_is_multiset(stages, O4)
     O5 = chk.rule('O5', 'inside the receive loop the sorter pops a buffered message only under the release comparison key + threshold < reception time')
     check_release_only_by_age(F, stages, O5)
+    O6 = chk.rule('O6', 'the heap key of a control request is its reception time: every other definition of the key lies on the false edge of is_ctrl_request()')
+    for b in stages:
+        check_ctrl_request_key(b, O6)
     O3 = chk.rule('O3', 'the release threshold of the sorter is, on every path, the configured minimum delay, its previous value, or minimum + x (never below the minimum)')
     check_threshold_floor(F, stages, O3)
 
@@ -376,3 +379,53 @@ def check_release_only_by_age(F, stages, O5):
                 O5.violation(('released-without-age-test', b.path), 'the sorter pops a buffered message at %s inside the receive loop without a dominating release comparison (key + threshold < reception time): '
                              'a message can be emitted before the threshold has passed and a later, older message follows it' % xb.loc(blk.term.sp), where=xb.loc(blk.term.sp))
     O5.floor('heap pops inside the receive loop of the sorter', n, 1)
+
+
+# ---------------------------------------------------------------------------------------------
+# O6: control requests are keyed by their reception time
+
+def check_ctrl_request_key(b, O6):
+    """"sorted by lifecycle start + timestamp, reception time for control requests": a control request is injected by the logger,
+    its timestamp field (if any) is not on the sender's clock.  Every definition of the value that becomes the heap key is
+    either the reception time of the message, or lies behind the false edge of `is_ctrl_request()`."""
+    from expr import ExprBuilder, show
+    from facts import Operand
+    import guards
+    cfg = CFG(b)
+    E = ExprBuilder(cfg, fold_named=True)
+    E0 = ExprBuilder(cfg)
+    O6.fn(b.path)
+    keys = set()
+    for blk in b.blocks:
+        if blk.cleanup:
+            continue
+        for s in blk.stmts:
+            if s.k == 'assign' and s.rv['k'] == 'agg' and s.rv.get('adt', '').endswith('SortedDltMessage') and 'calculated_time_us' in (s.rv.get('fields') or []):
+                o = Operand(s.rv['ops'][s.rv['fields'].index('calculated_time_us')])
+                if o.place is not None and o.place.is_local:
+                    l = o.place.l
+                    sd = cfg.single_def(l)
+                    if sd is not None and sd[1] != 'call' and sd[2].rv['k'] == 'use' and Operand(sd[2].rv['o']).place is not None and Operand(sd[2].rv['o']).place.is_local and not Operand(sd[2].rv['o']).place.p:
+                        l = Operand(sd[2].rv['o']).place.l
+                    keys.add(l)
+    n = 0
+    for l in keys:
+        for (bi, si, d) in cfg.defs.get(l, []):
+            n += 1
+            O6.sites += 1
+            if si == 'call':
+                val = d.callee.path
+                is_recv = False
+            else:
+                e = E.rvalue(d.rv)
+                val = show(e)
+                is_recv = isinstance(e, tuple) and e[0] in ('place', 'proj') and val.endswith('.reception_time_us')
+            not_ctrl = any(truth is False and isinstance(c, tuple) and c[0] == 'call' and c[1].endswith('::is_ctrl_request') for (c, truth, D) in guards.known(cfg, E0, bi))
+            if is_recv:
+                O6.ok(sample={'key_definition': val[:60], 'is': 'the reception time'})
+            elif not_ctrl:
+                O6.ok(sample={'key_definition': val[:60], 'only_for': 'messages that are not control requests'})
+            else:
+                O6.violation(('ctrl-request-not-keyed-by-reception', b.path), 'the sort key is set to %s at %s on a path that a control request can take (no dominating `!is_ctrl_request()`): '
+                             'control requests must be sorted by their reception time, their timestamp is not on the sender clock' % (val[:70], b.loc(d.sp)), where=b.loc(d.sp))
+    O6.floor('definitions of the heap key in the sorter', n, 2)
